@@ -1,2 +1,64 @@
+(* C21 — Reflogs read back forwards and backwards identically: the statements. *)
+From Coq Require Import List Arith.
 From GixV.Base Require Import Bytes BytesFacts Outcome.
-From GixV.C21 Require Import Model Proofs.
+From GixV.C21 Require Import Model Spec ProofsRev ProofsIter.
+Import ListNotations.
+Local Open Scope nat_scope.
+
+(* forward() reads exactly the LF-separated lines of the file (a final LF does not start a line; CR is
+   an ordinary byte), each through LineRef::from_bytes. *)
+Theorem forward_is_lf_split : forall f, forward f = map from_bytes (flines f).
+Proof. exact forward_flines. Qed.
+
+(* Into<Line> on a parsed line never hits its `expect("parse validation")`: the reverse iterator's item
+   is a total function of the forward iterator's item for the same line. *)
+Theorem into_line_never_panics : forall b, parse_owned b = Ok (own (from_bytes b)).
+Proof. exact parse_owned_own. Qed.
+
+(* THE PROPERTY.  For every file (well-formed or not), every non-empty buffer with whatever initial
+   content, if the buffer is at least as long as the longest line counted with its newline, then
+   driving Reverse to its end terminates within [reverse_fuel], does not panic, yields no I/O error,
+   and yields exactly the forward entries in reverse order. *)
+Theorem reverse_is_rev_forward : forall f buf,
+  buf <> [] -> maxline_nl (flines f) <= length buf ->
+  reverse_init f buf = Ok (init_state f buf) /\
+  collect (reverse_fuel f) f (init_state f buf) = Ok (rev (map own (forward f))).
+Proof. exact reverse_is_rev_forward_maxline. Qed.
+
+(* The sharp condition: the first line needs its own length, every other line its length plus the
+   LF in front of it. *)
+Theorem reverse_is_rev_forward_sharp : forall f buf,
+  buf <> [] -> fits (length buf) (flines f) ->
+  collect (reverse_fuel f) f (init_state f buf) = Ok (rev (map own (forward f))).
+Proof. exact reverse_is_rev_forward_fits. Qed.
+
+(* "at least as large as its longest line" read WITHOUT the newline is not enough: a two-line log and a
+   buffer of exactly the longest line's length gives "buffer too small". *)
+Theorem reverse_without_newline_room_refuted : exists f buf,
+  buf <> [] /\ Forall (fun l => length l <= length buf) (flines f) /\
+  collect (reverse_fuel f) f (init_state f buf) <> Ok (rev (map own (forward f))).
+Proof. exact without_newline_room_refuted. Qed.
+
+(* a zero-sized buffer is refused *)
+Theorem reverse_zero_buffer : forall f, reverse_init f [] = Err ZeroBuf.
+Proof. reflexivity. Qed.
+
+(* ---- non-vacuity ------------------------------------------------------------------------------------- *)
+
+Definition oid_a : bytes := bs "0123456789abcdef0123456789abcdef01234567".
+Definition oid_0 : bytes := bs "0000000000000000000000000000000000000000".
+Definition sample_log : bytes :=
+  oid_0 ++ bs " " ++ oid_a ++ bs " n <e> 12 +0100" ++ [TAB] ++ bs "a>b" ++ [x0d; LF]
+  ++ oid_a ++ bs " " ++ oid_0 ++ bs " nn <ee> 13 -0130" ++ [LF].
+
+(* the hypotheses of the theorem hold for a two-entry log whose first message ends in CR and contains '>',
+   with a buffer of exactly the longest line plus its LF, pre-filled with LF bytes *)
+Example sample_fits : maxline_nl (flines sample_log) = 102 /\ length (repeat LF 102) = 102.
+Proof. vm_compute. split; reflexivity. Qed.
+
+Example sample_reads_two_entries :
+  match collect (reverse_fuel sample_log) sample_log (init_state sample_log (repeat LF 102)) with
+  | Ok [RLine l2; RLine l1] => l_msg l1 = bs "a>b" ++ [x0d] /\ l_msg l2 = [] /\ s_name (l_sig l2) = bs "nn"
+  | _ => False
+  end.
+Proof. vm_compute. repeat split; reflexivity. Qed.
